@@ -73,8 +73,8 @@ inline vj::value elem_value(const E& x) {
 template <class V>
 inline vj::value project(const V& v) {
     if constexpr (meta::is_maybe_v<V>) {
-        if (!static_cast<bool>(v)) return nothing_res();
-        return project(*v);
+        if (!static_cast<bool>(v)) { auto r = nothing_res(); r.set("maybe", true); return r; }
+        auto r = project(*v); r.set("maybe", true); return r;
     } else if constexpr (meta::is_num_v<V>) {
         vj::value r = vj::value::object();
         vj::value el = vj::value::array(); el.push(elem_value(static_cast<meta::get_element_type_t<V>>(v)));
